@@ -25,12 +25,14 @@ RULE = (
 RULE += " added since: attribute values that are falsy (None, 0, '', False), every declaration mask per level, nested named blocks, two bases alternating on one lookup through a dynamic <%inherit>, keyword-only <%page args>. every def and named block of every chain template rendered alone through get_def(), judged with that template as the most-derived one. dynamic inherit targets computed from a module attribute through context['self'].attr."
 ASSUMPTIONS = ["reference resolution in checks/c06.py (from the statement)"]
 MIN_NONTRIVIAL = 200
+RULE += " defs and blocks whose names contain render_."
 RULE += " render() arguments reaching the <%page> signature of the base-most body under six signatures of the rendered template (none, named, **opts, keyword-only)."
 REQUIRED_COUNTERS = ["chains_rendered", "dispatch_calls_model", "blocks_rendered_model", "negative_cases", "page_args_received", "missing_member_errors_matched", "get_def_renders", "render_args_cases"]
 
 _st = {}
-DEFS = ["d0", "d1", "d2"]
-BLOCKS = ["b0", "b1", "b2"]
+# (member names that themselves hold the prefix of the generated callables, "render_")
+DEFS = ["d0", "render_d1", "pre_render_d2"]
+BLOCKS = ["b0", "render_b1", "b2_render_"]
 ATTRS = ["a0", "a1"]
 
 
